@@ -40,17 +40,21 @@ Qed.
 Print Assumptions C10_rows.
 
 (* untouched: a column / named constraint / index whose name no operation mentions is in the edited description —
-   hence, by C10_schema, in the table Alembic builds — with identical definition *)
+   hence, by C10_schema, in the table Alembic builds — with identical definition; and the PRIMARY KEY, when no operation
+   mentions one of its columns, comes out with the same columns in the same (declared) order *)
 Theorem C10_untouched : forall tsort T ops T' nd cm,
   wf_tbl T = true -> forallb in_class ops = true ->
   edit_all ops T = BOk T' -> batch tsort T ops = BOk (nd, cm) ->
   nd = describe T' /\
+  ((forall k, In k (tb_pk T) -> ~ In k (mentioned ops)) -> n_pk nd = n_pk (describe T)) /\
   (forall k, ~ In k (mentioned ops) -> aget k (tb_cols T') = aget k (tb_cols T)) /\
   (forall c, In c (tb_cons T) -> ~ In (k_name c) (mentioned ops) -> In c (tb_cons T')) /\
   (forall x, In x (tb_idx T) -> ~ In (x_name x) (mentioned ops) -> In x (tb_idx T')).
 Proof.
-  intros tsort T ops T' nd cm H1 H2 H3 H4. split; [exact (proj1 (schema_rows tsort T ops T' nd cm H1 H2 H3 H4))|].
-  exact (untouched_spec ops T T' H2 H3).
+  intros tsort T ops T' nd cm H1 H2 H3 H4.
+  pose proof (proj1 (schema_rows tsort T ops T' nd cm H1 H2 H3 H4)) as E.
+  split; [exact E|]. split; [intros Hpk; rewrite E; exact (untouched_pk ops T T' H2 H3 Hpk)|].
+  exact (proj2 (untouched_spec ops T T' H2 H3)).
 Qed.
 Print Assumptions C10_untouched.
 
@@ -76,6 +80,11 @@ Theorem C10_readd_last_column_refuted :
 Proof. exact readd_refuted. Qed.
 Print Assumptions C10_readd_last_column_refuted.
 
+Theorem C10_rename_back_refuted :
+  exists i, (exists nd r, model10 i = OutOk nd r false) /\ check_C10 i (model10 i) = false /\ ~ C10_holds i (model10 i).
+Proof. exact rename_back_refuted. Qed.
+Print Assumptions C10_rename_back_refuted.
+
 (* where the model leaves the specification without violating the property text: position of an added column *)
 Theorem C10_added_column_order_refuted : exists i T' nd r,
   edit_all (j_ops i) (j_tbl i) = BOk T' /\ model10 i = OutOk nd r false /\
@@ -99,3 +108,17 @@ Example C10_no_temp_nonvacuous :
   let r := run_batch Pysqlite false wit_db wit_t (mkDef 11 [0%nat] [[0%nat]] []) [TCol 0; TCol 2] [mkIdx [105]%N [1%nat] false] (fun _ => false) OwnScope in
   lookup (calc_temp_name wit_t) wit_db = None /\ r_err r = None /\ eff_outcome OwnScope (r_err r) = Commit.
 Proof. vm_compute. repeat split. Qed.
+
+Local Open Scope N_scope.
+Definition nv_pk_tbl : tbl :=
+  mkTbl [(w_id, mkCol w_id 0 false None); (w_a, mkCol w_a 0 false None); (w_b, mkCol w_b 2 false None); (w_c, mkCol w_c 0 true None)]
+        [w_b; w_a] [mkCon w_uqc KUnique [w_c]] [].
+Example C10_untouched_pk_nonvacuous :
+  let ops := [OAddConstraint (mkCon w_uqa KUnique [w_id]); ODropConstraint w_uqc] in
+  wf_tbl nv_pk_tbl = true /\ forallb in_class ops = true /\ (forall k, In k (tb_pk nv_pk_tbl) -> ~ In k (mentioned ops)) /\
+  (exists nd cm, batch sa_tsort nv_pk_tbl ops = BOk (nd, cm) /\ n_pk nd = [w_b; w_a]).
+Proof.
+  split; [vm_compute; reflexivity|]. split; [vm_compute; reflexivity|]. split.
+  - intros k [<-|[<-|[]]]; vm_compute; intuition discriminate.
+  - eexists; eexists. split; vm_compute; reflexivity.
+Qed.
